@@ -350,7 +350,12 @@ Definition query_legal (q : query) (t : tt) : bool :=
   match q with
   | QSatCount vars => if is_fz then Nat.eqb vars n else Nat.leb n vars
   | QPickCube res => pick_vec_ok n t res
-  | QEval args => forallb (fun p => Nat.ltb (fst p) n) args
+  | QEval args =>
+    (* "args determines the valuation for all variables in the function's domain" (for ZBDDs the
+       domain *is* the set of variables in args): every manager variable is given a value;
+       repetitions are allowed, the last value counts *)
+    forallb (fun p => Nat.ltb (fst p) n) args
+    && forallb (fun v => existsb (fun p => Nat.eqb (fst p) v) args) (seq 0 n)
   | _ => true
   end.
 
@@ -409,8 +414,12 @@ Definition step (st : state) (c : call) : outcome (state * ret) :=
   match c with
   | CMgrNew d =>
     (* bdd.rs oxidd_bdd_manager_new: new_manager(..).into_raw(); "with reference count 1" *)
-    if st_created st then Illegal
-    else Done (set_mgrs st (mkR 1 []) [d], RetMgr)
+    (* one manager at a time: a new one may be created when none exists (never created, or the
+       last reference to the previous one is gone -- then no valid handle is left either) *)
+    match r_mrc rs with
+    | S _ => Illegal
+    | O => Done (mkSt k true 0 [] (mkR 1 []) [d] (st_funs st) (st_subs st), RetMgr)
+    end
   | CMgrRef d m =>
     (* oxidd_bdd_manager_ref: if !null { forget(manager.get().clone()) }; returns manager *)
     if has_mgr st m && fresh_m st d then
